@@ -217,8 +217,8 @@ def run_scenario(run: Run, scen: dict, rng: random.Random):
                     run.evaluations += 1
                     if Fraction(got) == want:
                         run.exact += 1
-                    elif abs(got - float(want)) <= 1e-9 * max(bound, abs(float(want)), 1e-300):
-                        run.tolerance += 1
+                    elif abs(got - float(want)) <= 1e-9 * max(bound, abs(float(want)), 1e-300) + 1e-12 * max(1.0, scale[u]):
+                        run.tolerance += 1  # incl. float noise (1e-32) where the exact derivative is 0
                     else:
                         zr = zero_unit_rows(sc, theta0, X) if semiring != "sum-product" else set()
                         at_zero = bool(zr & {b for b in range(len(X)) if c[b].any()})
@@ -239,7 +239,7 @@ def run_scenario(run: Run, scen: dict, rng: random.Random):
                             want, bound = expected_from_dual(vals, semiring, c, d)
                             got = float(gx[b, v])
                             run.evaluations += 1
-                            if abs(got - float(want)) <= 1e-9 * max(bound, abs(float(want)), 1e-300):
+                            if abs(got - float(want)) <= 1e-9 * max(bound, abs(float(want)), 1e-300) + 1e-12 * max(1.0, float(np.max(np.abs(gx)))):
                                 run.tolerance += 1
                             else:
                                 zr = zero_unit_rows(sc, theta0, X) if semiring != "sum-product" else set()
